@@ -74,6 +74,7 @@ def total(chk, obj, origin=""):
 
 
 def setup_limits(spec):
+	# (a negative limit shows no more than a limit of 0 does: effective_k() clamps it)
 	display.set_repr_rows(spec.get("limit"))
 	pol = spec.get("polluter")
 	# an earlier repr of some OTHER object must not leave state behind that changes this one
@@ -447,7 +448,8 @@ def run_int_limit(chk, spec):
 	objs = {
 		"int-vector": lambda: Vector([big, 1, -big]), "float-column-holding-int": lambda: Vector([1.5, big]), "table": lambda: Table({"a": [big, 2], "b": ["x", "y"]}),
 		"row": lambda: Table({"a": [big, 2], "b": [1, 2]})[0], "object-vector": lambda: Vector([big, "a"]), "tuple-cell": lambda: Vector([(big,), (1,)]), "named": lambda: Vector([1, 2], name=big),
-		"nullable": lambda: Vector([big, None]),
+		"nullable": lambda: Vector([big, None]), "signed-pair-in-float-column": lambda: Vector([1.5, big, -big]), "signed-pair-in-table": lambda: Table({"a": [1, big, -big]}), "signed-object-cells": lambda: Vector([big, -big, "a"]),
+		"negative-name": lambda: Vector([1, 2], name=-big), "negative-in-tuple": lambda: Vector([(-big,), (1,)]), "negative-row": lambda: Table({"a": [-big, 2], "b": [1, 2]})[0],
 	}
 	built = call(objs[spec["what"]])
 	if not built.ok:
@@ -462,6 +464,16 @@ def run_int_limit(chk, spec):
 		sys.set_int_max_str_digits(old)
 	chk.sigs.add(repr(("int-limit", spec["what"], spec["limit"], digits)))
 	chk.judged("total", ("int-limit", spec["what"], spec["limit"], digits)) if hasattr(chk, "judged") else None
+	if ok and spec["what"] in ("int-vector", "signed-pair-in-float-column", "signed-pair-in-table", "signed-object-cells"):
+		# however such an int is shown, a negative one is not shown as the positive one: the line of -big carries a minus sign, the line of big does not
+		lines = [ln.strip() for ln in r.value.splitlines()]
+		body = [ln for ln in lines if ln and not ln.startswith("#")]
+		pos_i, neg_i = {"int-vector": (0, 2), "signed-pair-in-float-column": (1, 2), "signed-pair-in-table": (-2, -1), "signed-object-cells": (0, 1)}[spec["what"]]
+		if len(body) >= 3 or (spec["what"] == "signed-object-cells" and len(body) >= 2):
+			pl, nl = body[pos_i], body[neg_i]
+			if pl.startswith("-") or not nl.startswith("-"):
+				chk.fail("repr shows the data", f"repr/sign-lost/int-beyond-digit-limit/{spec['what']}", f"{spec!r}: the lines of big and -big read {pl[:24]!r}... and {nl[:24]!r}...")
+				return
 	if not ok:
 		chk.fail("repr never raises", f"repr/raises/int-digit-limit-lowered/{spec['what']}/{exc}", f"{spec!r}: with sys.set_int_max_str_digits({spec['limit']}) after import, repr of a {spec['what']} holding an int of {digits} digits raised {exc}")
 
@@ -491,7 +503,64 @@ def run_repr_then_use(chk, spec):
 			return
 
 
-RUNNERS = {"repr_then_use": run_repr_then_use, "int_limit": run_int_limit, "str_cells": run_str_cells, "strsub": run_strsub, "vector_truth": run_vector_truth, "table_truth": run_table_truth, "total": run_total}
+def run_built_by_history(chk, spec):
+	"""objects that only a sequence of calls produces - a <datetime> column that took a plain date afterwards, a table whose first cells were overwritten
+	with None in front of a column of nested vectors, cells and labels of str subclasses whose own __str__ / __repr__ raise - : repr returns a string, leaves
+	the object alone and states the true size"""
+	import warnings
+	what = spec["what"]
+	with warnings.catch_warnings():
+		warnings.simplefilter("ignore")
+		if what == "date-in-datetime-vector":
+			obj = Vector([date(2020, 1, 1), date(2020, 1, 2), None][:spec.get("n", 3)], name="when")
+			obj[0] = datetime(2020, 1, 1, 5, 30)
+			obj[1 % len(obj)] = date(2021, 2, 3)
+			size = f"{len(obj)} element vector"
+		elif what == "date-in-datetime-column":
+			obj = Table({"id": [1, 2, 3], "when": [datetime(2020, 1, 1, 5), datetime(2020, 1, 2, 6), datetime(2020, 1, 3, 7)]})
+			obj[1, "when"] = date(2021, 2, 3)
+			size = "3×2 table"
+		elif what == "inferred-datetime-then-date":
+			obj = Vector([datetime(2020, 1, 1, 5), date(2020, 1, 2)])
+			size = "2 element vector"
+		elif what == "none-before-nested-column":
+			obj = Table([Vector(["a", "b"], name="key"), Vector([Vector([1, 2]), Vector([3, 4, 5])], name="members")])
+			call(repr, obj)
+			obj[0, "key"] = None
+			size = "2×2 table"
+		elif what == "none-first-then-nested":
+			obj = Table([Vector([None, "b"], name="key"), Vector([None, 2], name="n"), Vector([Vector([1, 2]), Vector([3, 4])], dtype=object, name="members")])
+			size = "2×3 table"
+		else:
+			mode = spec["mode"]
+			ns = {}
+			if mode in ("str", "both"):
+				ns["__str__"] = lambda self: 1 / 0
+			if mode in ("repr", "both"):
+				ns["__repr__"] = lambda self: 1 / 0
+			H = type("H", (str,), ns)
+			obj, size = {
+				"hostile-str-cells": lambda: (Vector([H("a"), H("b c")]), "2 element vector"), "hostile-str-object-cells": lambda: (Vector([H("a"), 1], dtype=object), "2 element vector"),
+				"hostile-str-vector-name": lambda: (Vector([1], name=H("x y")), "1 element vector"), "hostile-str-table": lambda: (Table([Vector([1], name=H("x y")), Vector([H("q")], name=H("z"))]), "1×2 table"),
+				"hostile-str-row": lambda: (Table({"a": [H("x")], "b": [2]})[0], None), "hostile-str-tuple-cell": lambda: (Vector([(H("a"), 1), (H("b"), 2)]), "2 element vector"),
+			}[what]()
+	before = snap(obj) if not isinstance(obj, bind.Row) else None
+	o = call(repr, obj)
+	chk.judged("total", ("built-by-history", what, spec.get("mode")))
+	if not o.ok:
+		chk.fail("repr never raises", f"repr/raises/{what}/{type(o.exc).__name__}", f"{spec!r}: repr raised {o!r}")
+		return
+	if not isinstance(o.value, str):
+		chk.fail("repr returns a string", f"repr/not-a-string/{what}", f"{spec!r}: {type(o.value).__name__}")
+		return
+	if before is not None and snap(obj) != before:
+		chk.fail("repr does not change the object", f"repr/mutates/{what}", f"{spec!r}")
+		return
+	if size is not None and size not in o.value:
+		chk.fail("the footer states the true element count or rows x columns", f"repr/footer-count/{what}", f"{spec!r}: expected {size!r} in the footer:\n{o.value}")
+
+
+RUNNERS = {"built_by_history": run_built_by_history, "repr_then_use": run_repr_then_use, "int_limit": run_int_limit, "str_cells": run_str_cells, "strsub": run_strsub, "vector_truth": run_vector_truth, "table_truth": run_table_truth, "total": run_total}
 RUNNERS["recompute"] = recompute.runner("C20")
 
 SIMPLE = {
@@ -537,13 +606,18 @@ def run(chk):
 			for touch_first in (False, True):
 				for twice in (False, True):
 					chk.case("repr_then_use", {"nrows": nrows, "new": new, "touch_first": touch_first, "twice": twice}, "repr-then-use")
-	for what in ("int-vector", "float-column-holding-int", "table", "row", "nullable"):
+	for what in ("date-in-datetime-vector", "date-in-datetime-column", "inferred-datetime-then-date", "none-before-nested-column", "none-first-then-nested"):
+		chk.case("built_by_history", {"what": what}, "built-by-history")
+	for what in ("hostile-str-cells", "hostile-str-object-cells", "hostile-str-vector-name", "hostile-str-table", "hostile-str-row", "hostile-str-tuple-cell"):
+		for mode in ("str", "repr", "both"):
+			chk.case("built_by_history", {"what": what, "mode": mode}, "built-by-history")
+	for what in ("int-vector", "float-column-holding-int", "table", "row", "nullable", "signed-pair-in-float-column", "signed-pair-in-table", "signed-object-cells", "negative-name", "negative-in-tuple", "negative-row"):
 		for limit, digits in ((640, 800), (640, 4000), (1000, 1001), (0, 5000)):
 			chk.case("int_limit", {"what": what, "limit": limit, "digits": digits}, "int-limit")
-	limits = [None, 2, 4, 6, 20, 3, 7, 1, 0] + ([] if chk.quick() else [13, 5])
+	limits = [None, 2, 4, 6, 20, 3, 7, 1, 0, -2, -3, -7] + ([] if chk.quick() else [13, 5, -1, -4])
 	# ---- truthfulness: vectors
 	for limit in limits:
-		k = (limit if limit is not None else 12)
+		k = max(limit if limit is not None else 12, 0)
 		for kind in SIMPLE:
 			for n in sorted({0, 1, max(0, k - 2), max(0, k - 1), k, k + 1, k + 2, k + 3, k + 40}):
 				for npat in ("none", "low", "first", "last"):
@@ -560,7 +634,7 @@ def run(chk):
 	# ---- truthfulness: tables
 	for limit in limits:
 		for override in (None, None, 4, 8, 5):
-			k = (override if override is not None else (limit if limit is not None else 12))
+			k = max(override if override is not None else (limit if limit is not None else 12), 0)
 			for ncols in (1, 2, 3, 5, 9, 10, 11, 12):
 				for nrows in sorted({0, 1, max(0, k - 1), k, k + 1, k + 3}):
 					if chk.quick() and (ncols in (3, 9)) and override is not None:
